@@ -112,11 +112,71 @@ def stepC02 (ts : List String) : String :=
       | _, _ => "bad-op"
   | _ => "bad-op"
 
+def intList? (ts : List String) : Option (List Int) := ts.mapM String.toInt?
+
+/-- parse `k len v… len v… rest` into chunks of rationals `v/den` -/
+def takeChunks (den : Nat) : Nat → List String → Option (List (List Rat) × List String)
+  | 0, ts => some ([], ts)
+  | k + 1, ts =>
+    match ts with
+    | [] => none
+    | n :: rest =>
+      match n.toNat? with
+      | none => none
+      | some len =>
+        if rest.length < len then none else
+        match intList? (rest.take len) with
+        | none => none
+        | some vs =>
+          match takeChunks den k (rest.drop len) with
+          | none => none
+          | some (cs, r) => some (vs.map (fun v => mkRat v den) :: cs, r)
+
+def showRat (q : Rat) : String := s!"{q.num}/{q.den}"
+
+def showMom (m : Moments.Mom) (mm : Moments.MinMax) : String :=
+  s!"ok {m.n} {showRat m.m1} {showRat m.m2} {showRat m.m3} {showRat m.m4} {showRat mm.mn} {showRat mm.mx}"
+
+def runAcc (basic : Bool) (chunks : List (List Rat)) : Moments.Mom × Moments.MinMax :=
+  let m := if basic then chunks.foldl Moments.pushBasic Moments.Mom.zero
+           else Moments.pushChunks Moments.Mom.zero chunks
+  (m, Moments.pushChunksMM 0 ⟨0, 0⟩ chunks)
+
+def stepC10 (ts : List String) : String :=
+  match ts with
+  | "push" :: mode :: den :: k :: rest =>
+    match den.toNat?, k.toNat? with
+    | some den, some k =>
+      if den = 0 then "bad-op" else
+      match takeChunks den k rest with
+      | some (cs, []) => let (m, mm) := runAcc (mode == "basic") cs; showMom m mm
+      | _ => "bad-op"
+    | _, _ => "bad-op"
+  | "merge" :: den :: ka :: rest =>
+    match den.toNat?, ka.toNat? with
+    | some den, some ka =>
+      if den = 0 then "bad-op" else
+      match takeChunks den ka rest with
+      | some (ca, kb :: rest2) =>
+        match kb.toNat? with
+        | none => "bad-op"
+        | some kb =>
+          match takeChunks den kb rest2 with
+          | some (cb, []) =>
+            let (a, am) := runAcc false ca
+            let (b, bm) := runAcc false cb
+            showMom (Moments.merge a b) ⟨min am.mn bm.mn, max am.mx bm.mx⟩
+          | _ => "bad-op"
+      | _ => "bad-op"
+    | _, _ => "bad-op"
+  | _ => "bad-op"
+
 def step (line : String) : String :=
   match (line.trimAscii.toString.splitOn " ").filter (· ≠ "") with
   | "C03" :: rest => stepC03 rest
   | "C01" :: rest => stepC01 rest
   | "C02" :: rest => stepC02 rest
+  | "C10" :: rest => stepC10 rest
   | _ => "bad-op"
 
 partial def loop (h : IO.FS.Stream) (out : IO.FS.Stream) : IO Unit := do
